@@ -23,10 +23,13 @@ region and handed over gap temperatures / gap film coefficients / duct power.
   thickness     {0.5, 3} mm
   temperatures  hot inside / hot outside / equal / non-uniform round the duct
                 (+ alternating layers thorough)
-  wall heating  0 / 20 W/m / 2000 W/m per cell / non-uniform per cell (rodded
-                only; + None, one heated cell, 2e5 W/m thorough)
-  outer BC      coupled / adiabatic            (+ gap htc as (edge, corner)
-                pair instead of per-cell array, thorough, rodded only)
+  wall heating  0 (array of zeros, and None as the power model hands over
+                when there is no duct power) / 20 W/m / 2000 W/m per cell /
+                non-uniform per cell (rodded only; + one heated cell, 2e5 W/m
+                thorough)
+  gap htc form  per-cell array (what the Reactor passes) / (edge, corner) pair
+                (documented alternative; rodded only)
+  outer BC      coupled / adiabatic
 
 Oracle (per duct cell, from the three reported temperatures T_si, T_mw, T_so,
 which determine the parabola T(x) on [-t/2, t/2]):
@@ -101,8 +104,8 @@ def alphabet(tier, kind):
         # layers alternate between two levels: every duct sees all 3 x 3 pairs
         a['film'] = [[(p if l % 2 == 0 else q) for l in range(nd + 1)] for p in lv for q in lv]
         a['temps'] = ['hot-in', 'hot-out', 'equal', 'nonuniform']
-        a['heat'] = ['zero', 'small', 'large', 'nonuniform'] if rodded else ['zero']
-        a['gapform'] = ['cells']
+        a['heat'] = ['zero', 'none', 'small', 'large', 'nonuniform'] if rodded else ['zero']
+        a['gapform'] = ['cells', 'pair'] if rodded else ['cells']
     else:
         film = [[]]
         for l in range(nd + 1):
